@@ -83,7 +83,7 @@ Example C20_decode_nonvacuous :
     ops_agree g2 G = true /\ sw = [1; 1; 1; 1; 1; 1] /\ all_muxes G = [2%nat; 3%nat; 4%nat; 5%nat] /\
     (forall opsem, eval_pe opsem g2 [] [5; 7] = Some [opsem (mkOp 21 0) [5; opsem (mkOp 22 0) [7; 5]]]).
 Proof.
-  eexists _, _, _, _. repeat split; try (vm_compute; reflexivity).
+  eexists _, _, _, _. repeat (split; [vm_compute; reflexivity|]). intros opsem. vm_compute. reflexivity.
 Qed.
 Print Assumptions C20_decode_nonvacuous.
 
@@ -98,6 +98,6 @@ Example C20_history_nonvacuous :
     forallb (fun g => kernel_ok g && Nat.eqb (pdata g) (pdata G)) [g1; g2; g3] = true /\
     map (decode G) [g1; g2; g3] = [Some [0; 0; 0; 0; 0; 0; 0]; Some [1; 1; 1; 1; 1; 1; 0]; Some [2; 2; 0; 1; 0; 0; 1]].
 Proof.
-  eexists _, _, _, _. repeat split; try (vm_compute; reflexivity).
+  eexists _, _, _, _. repeat (split; [vm_compute; reflexivity|]). vm_compute. reflexivity.
 Qed.
 Print Assumptions C20_history_nonvacuous.
